@@ -356,9 +356,9 @@ func init() {
 		Rule:          "strings over an alphabet of 1- to 4-byte code points, combining marks, U+FFFD, U+10FFFF and the empty string (length 0..6, some up to 200): every position parameter over [-len-2, len+2] and +-2^31/2^62 through slices, find_first/find_last (2-4 arguments), pad_left/pad_right (pad characters of every width), split on '' and on substrings with counts, replace with counts, plus length/reverse/join/trim/contains/starts_with/ends_with/sort/min/max(_by) incl. pairs ordered differently by UTF-16 unit and by code point - compared with the reference model on code points; every string in every result checked for UTF-8 validity; renaming relation: a-z mapped order-preservingly to 2-, 3- and 4-byte letters in expression and data must rename the result the same way (library against itself); non-trivial = model decides (positions/order), result contains renamed letters (renaming)",
 		MinNontrivial: 5000,
 		Streams: []Stream{
-			{Name: "positions", N: func(c *Ctx) int { return tierN(c, 1500, 30000) }, Run: c11Positions},
+			{Name: "positions", N: func(c *Ctx) int { return tierN(c, 1500, 100000) }, Run: c11Positions},
 			{Name: "order", N: func(c *Ctx) int { return tierN(c, 3000, 60000) }, Run: c11Order},
-			{Name: "rename", N: func(c *Ctx) int { return tierN(c, 20000, 400000) }, Run: c11Rename},
+			{Name: "rename", N: func(c *Ctx) int { return tierN(c, 20000, 1500000) }, Run: c11Rename},
 		},
 	})
 }
